@@ -194,6 +194,99 @@ fn describe_key(k: &PublicKey, ex: &mut Exec) -> String {
 
 /// Canonical description of an address; calls every accessor and formatter and
 /// evaluates the round-trip / canonical-representation part of the property.
+/// A minimal non-self-describing serde format whose byte strings arrive as OWNED buffers
+/// (`Visitor::visit_byte_buf`), the way reader-based binary formats deliver them; postcard's
+/// slice flavour goes through `visit_bytes` and serde_json through `visit_seq`, so without this
+/// route the third entry point of `CustomAddrBytes`'s hand-written `Deserialize` is never driven.
+mod owned_format {
+    use serde::de::{self, Deserializer, SeqAccess, Visitor};
+
+    #[derive(Debug)]
+    pub struct Error(pub String);
+    impl std::fmt::Display for Error {
+        fn fmt(&self, f: &mut std::fmt::Formatter<'_>) -> std::fmt::Result {
+            f.write_str(&self.0)
+        }
+    }
+    impl std::error::Error for Error {}
+    impl de::Error for Error {
+        fn custom<T: std::fmt::Display>(m: T) -> Self {
+            Error(m.to_string())
+        }
+    }
+
+    pub enum Item {
+        U64(u64),
+        Bytes(Vec<u8>),
+    }
+
+    pub struct De {
+        items: std::vec::IntoIter<Item>,
+    }
+
+    impl De {
+        pub fn new(items: Vec<Item>) -> Self {
+            De { items: items.into_iter() }
+        }
+    }
+
+    struct Fields<'a> {
+        de: &'a mut De,
+        left: usize,
+    }
+
+    impl<'de> SeqAccess<'de> for Fields<'_> {
+        type Error = Error;
+        fn next_element_seed<T: de::DeserializeSeed<'de>>(&mut self, seed: T) -> Result<Option<T::Value>, Error> {
+            if self.left == 0 {
+                return Ok(None);
+            }
+            self.left -= 1;
+            seed.deserialize(&mut *self.de).map(Some)
+        }
+    }
+
+    impl<'de> Deserializer<'de> for &mut De {
+        type Error = Error;
+        fn deserialize_any<V: Visitor<'de>>(self, _v: V) -> Result<V::Value, Error> {
+            Err(Error("not self-describing".into()))
+        }
+        fn deserialize_u64<V: Visitor<'de>>(self, v: V) -> Result<V::Value, Error> {
+            match self.items.next() {
+                Some(Item::U64(x)) => v.visit_u64(x),
+                _ => Err(Error("expected u64".into())),
+            }
+        }
+        fn deserialize_bytes<V: Visitor<'de>>(self, v: V) -> Result<V::Value, Error> {
+            match self.items.next() {
+                Some(Item::Bytes(b)) => v.visit_byte_buf(b),
+                _ => Err(Error("expected bytes".into())),
+            }
+        }
+        fn deserialize_byte_buf<V: Visitor<'de>>(self, v: V) -> Result<V::Value, Error> {
+            self.deserialize_bytes(v)
+        }
+        fn deserialize_struct<V: Visitor<'de>>(
+            self,
+            _name: &'static str,
+            fields: &'static [&'static str],
+            v: V,
+        ) -> Result<V::Value, Error> {
+            v.visit_seq(Fields { de: self, left: fields.len() })
+        }
+        fn deserialize_newtype_struct<V: Visitor<'de>>(self, _name: &'static str, v: V) -> Result<V::Value, Error> {
+            v.visit_newtype_struct(self)
+        }
+        fn is_human_readable(&self) -> bool {
+            false
+        }
+        serde::forward_to_deserialize_any! {
+            bool i8 i16 i32 i64 i128 u8 u16 u32 u128 f32 f64 char str string option unit
+            unit_struct seq tuple tuple_struct map enum identifier ignored_any
+        }
+    }
+}
+
 fn describe_addr(a: &CustomAddr, ex: &mut Exec) -> String {
     let id = a.id();
     let data = a.data().to_vec();
@@ -236,6 +329,17 @@ fn describe_addr(a: &CustomAddr, ex: &mut Exec) -> String {
             Err(_) => ex.violation("ca-json-roundtrip", js),
         },
         Err(e) => ex.violation("ca-json-roundtrip", e.to_string()),
+    }
+    {
+        use serde::Deserialize;
+        let mut de = owned_format::De::new(vec![
+            owned_format::Item::U64(id),
+            owned_format::Item::Bytes(data.to_vec()),
+        ]);
+        match CustomAddr::deserialize(&mut de) {
+            Ok(b) => copies.push(("ownedbuf", b)),
+            Err(e) => ex.violation("ca-ownedbuf-roundtrip", e.to_string()),
+        }
     }
     copies.push(("parts", CustomAddr::from_parts(id, &data)));
     copies.push(("tuple", CustomAddr::from((id, &data[..]))));
